@@ -111,6 +111,7 @@ type HarnessResult struct {
 	EndCounts  map[string]int
 	Covers     map[string]int
 	Findings   []Finding
+	stopped    bool
 	AssertsOK  map[string]int
 	AssertsUnk map[string]int
 	Known      map[string]int
@@ -381,6 +382,15 @@ func (p *Program) RunHarnessOn(opt *Options, pool *Pool) *HarnessResult {
 			hr.Paths++
 			hr.merge(res, opt)
 			var todo [][]Dec
+			if len(hr.Findings) >= 40 {
+				// enough counterexamples for this instance: further exploration cannot change the
+				// verdict (confirmed ones make the check fail, unconfirmed ones leave it undecided)
+				if len(forks) > 0 && !hr.stopped {
+					hr.stopped = true
+					hr.Unwinds = append(hr.Unwinds, "exploration stopped after 40 findings in this instance")
+				}
+				forks = nil
+			}
 			for _, f := range forks {
 				if submitted < opt.MaxPaths {
 					submitted++
